@@ -90,7 +90,7 @@ DISPATCH = {("line", 1): (1, False), ("line", 2): (1, False), ("line", 3): (1, F
             ("pressure", 2): (1, True), ("pressure", 3): (2, False)}
 
 
-def rand_poly(rng, deg, dim_active):
+def rand_poly(rng, deg, dim_active, exact_deg=False):
     """random integer-coefficient polynomial of total degree <= deg in the first dim_active coords"""
     coeffs = {}
     exps = [(a, b, c) for a in range(deg + 1) for b in range(deg + 1) for c in range(deg + 1)
@@ -102,6 +102,11 @@ def rand_poly(rng, deg, dim_active):
                 coeffs["%d,%d,%d" % e] = v
     if not coeffs:
         coeffs["0,0,0"] = 3
+    if exact_deg and deg > 0:
+        # make sure the density really has degree `deg` (a mixed top-degree monomial when possible)
+        top = [e for e in exps if sum(e) == deg]
+        e = max(top, key=lambda t: (sum(1 for v in t if v), rng.random()))
+        coeffs["%d,%d,%d" % e] = coeffs.get("%d,%d,%d" % e) or rng.choice([-3, -2, 2, 3])
     return coeffs
 
 
@@ -112,7 +117,13 @@ def gen_cases(ctx):
     meshes2.append({"kind": "2d", "elemType": "TRI3", "L": 2, "H": 1, "ms": 0.6, "organised": False})
     meshes3 = [{"kind": "3d", "elemType": et, "L": 2, "H": 1, "T": 1, "ms": 1.0, "layers": 2, "organised": True} for et in ("TETRA4", "HEXA8", "PRISM6")]
     meshes3.append({"kind": "3d", "elemType": "PRISM6", "L": 2, "H": 1, "T": 1, "ms": 0.7, "layers": 1, "organised": False})
-    order = {"TRI3": 1, "TRI6": 2, "QUAD4": 1, "QUAD8": 2, "TETRA4": 1, "HEXA8": 1, "PRISM6": 1, "SEG2": 1}
+    order = {"TRI3": 1, "TRI6": 2, "QUAD4": 1, "QUAD8": 2, "TETRA4": 1, "HEXA8": 1, "PRISM6": 1, "SEG2": 1,
+             "QUAD9": 2, "TRI10": 3, "TRI15": 4, "TETRA10": 2, "HEXA20": 2, "HEXA27": 2, "PRISM15": 2, "PRISM18": 2}
+    # higher-order types: their 'mass' rules (TETRA10: 15 points, HEXA20/27: 27, PRISM15/18: 21, TRI10/15: 12)
+    # are exercised with densities of every degree 1..order, resultant AND moments
+    meshes2_ho = [{"kind": "2d", "elemType": et, "L": 2, "H": 1, "ms": 1.0, "organised": True} for et in ("QUAD9", "TRI10", "TRI15")]
+    meshes3_ho = [{"kind": "3d", "elemType": et, "L": 2, "H": 1, "T": 1, "ms": 1.0, "layers": 1, "organised": True}
+                  for et in ("TETRA10", "HEXA20", "HEXA27", "PRISM15", "PRISM18")]
     cases = []
 
     def add(mesh, simu, load, sel, kinds=("const", "poly", "nodal"), **kw):
@@ -132,15 +143,15 @@ def gen_cases(ctx):
                 k = rng.randint(1, len(unknowns_all)) if simu == "Elastic" else 1
                 # partial lists in random order (Elastic); explicit orderings for beams
                 c["unknowns"] = rng.sample(unknowns_all, k) if simu == "Elastic" else list(kw.get("unknowns", unknowns_all[:1]))
-                deg = 0 if kind == "const" else order[mesh["elemType"]]
+                deg = 0 if kind == "const" else kw.get("deg", order[mesh["elemType"]])
                 vals = []
                 for _ in c["unknowns"]:
                     if kind == "const":
                         vals.append({"kind": "const", "v": rng.randint(-5, 5) or 2})
                     else:
-                        vals.append({"kind": kind, "coeffs": rand_poly(rng, deg, dim)})
+                        vals.append({"kind": kind, "coeffs": rand_poly(rng, deg, dim, exact_deg="deg" in kw)})
                 c["values"] = vals
-            c.update({k: v for k, v in kw.items() if k != "unknowns"})
+            c.update({k: v for k, v in kw.items() if k not in ("unknowns", "deg")})
             if load != "point" and rng.random() < 0.6:
                 # the selection is a set: repeated ids and arbitrary order must not matter
                 c["selection"] = dict(sel, dup={"seed": rng.randrange(1 << 30), "n": rng.choice([0, 1, 2, 5])})
@@ -183,6 +194,27 @@ def gen_cases(ctx):
             add(m, "Elastic", "line", edge, kinds=("poly",))
             add(m, "Elastic", "pressure", rng.choice([fx, fz]), kinds=("const",))
             add(m, "Elastic", "point", fz, kinds=("const",))
+    # higher-order element types, every density degree up to the element order
+    for m in meshes3_ho:
+        L, H, T = m["L"], m["H"], m["T"]
+        everything = {"type": "box", "lo": [0, 0, 0], "hi": [L, H, T]}
+        faces = [{"type": "face", "axis": a, "value": v} for a, v in ((0, L), (1, H), (2, T), (2, 0))]
+        for d in (1, 2):
+            add(m, "Elastic", "volume", everything, kinds=("poly",), deg=d)
+        add(m, "Elastic", "volume", everything, kinds=("nodal",), deg=rng.choice([1, 2]))
+        add(m, "Elastic", "surf", rng.choice(faces), kinds=("poly",), deg=2)
+        if not quick:
+            add(m, "Elastic", "surf", rng.choice(faces), kinds=("poly", "nodal"), deg=1)
+            add(m, "Elastic", "line", {"type": "box", "lo": [L, H, 0], "hi": [L, H, T]}, kinds=("poly",), deg=2)
+    for m in meshes2_ho:
+        L, H = m["L"], m["H"]
+        everything = {"type": "box", "lo": [0, 0, 0], "hi": [L, H, 0]}
+        o = order[m["elemType"]]
+        for d in sorted(set([1, o])) if quick else range(1, o + 1):
+            add(m, "Elastic", "volume", everything, kinds=("poly",), deg=d)
+        add(m, rng.choice(["Elastic", "Thermal"]), "surf", {"type": "face", "axis": rng.randrange(2), "value": [L, H][0] if False else None}, kinds=()) if False else None
+        ax = rng.randrange(2)
+        add(m, "Elastic", "surf", {"type": "face", "axis": ax, "value": [L, H][ax]}, kinds=("poly", "nodal"), deg=o)
     # Euler-Bernoulli beam, Hermitian line load on y, Lagrange on x
     beam = {"kind": "beam", "elemType": "SEG2", "L": 2, "ms": 0.5, "beamDim": 2}
     allb = {"type": "box", "lo": [0, 0, 0], "hi": [2, 0, 0]}
@@ -413,13 +445,14 @@ def expected_for(c, r, center):
     return {"R": R, "M": M, "zero_nodes": zero, "loaded": loaded, "measure": meas, "tfac": tfac}
 
 
-def coq_select_cases(cases, results):
+def coq_select_cases(cases, results, budget=None, rng=None):
     def L(xs):
         return "[" + "; ".join(str(int(x)) for x in xs) + "]"
     body = ["From Coq Require Import List Arith Bool PeanoNat ZArith.\nFrom EFModel Require Import C09_Loads.\nImport ListNotations.\n"
             "Fixpoint list_eqb (a b : list nat) : bool := match a, b with [], [] => true | x :: a', y :: b' => Nat.eqb x y && list_eqb a' b' | _, _ => false end.\n"]
     ids = []
     k = 0
+    cand = []
     for c in cases:
         r = results.get(c["id"])
         if r is None or "error" in r or not r["nodes"]:
@@ -427,11 +460,84 @@ def coq_select_cases(cases, results):
         for gi, g in enumerate(r["groups"]):
             if g["type"] == "POINT" or len(g["connect"]) > 400 or r["Nn"] > 400:
                 continue
+            cand.append((c["id"], gi, len(g["connect"]) * len(g["connect"][0]) * len(r["nodes"])))
+    keep = None
+    if budget is not None and rng is not None:
+        # quick tier: a random subset within a cost budget (unary nat arithmetic in vm_compute)
+        rng.shuffle(cand)
+        budget = budget * sum(cc for _, _, cc in cand)
+        keep, tot = set(), 0
+        for cid, gi, cost in cand:
+            if tot + cost <= budget:
+                keep.add((cid, gi)); tot += cost
+    for c in cases:
+        r = results.get(c["id"])
+        if r is None or "error" in r or not r["nodes"]:
+            continue
+        for gi, g in enumerate(r["groups"]):
+            if g["type"] == "POINT" or len(g["connect"]) > 400 or r["Nn"] > 400:
+                continue
+            if keep is not None and (c["id"], gi) not in keep:
+                continue
             body.append("Eval vm_compute in (%d%%Z, let conn := [%s] in let sel := %s in (list_eqb (select conn sel true) %s && list_eqb (select conn sel false) %s)).\n"
                         % (5000000 + k, "; ".join(L(row) for row in g["connect"]), L(r["nodes"]), L(g["excl"]), L(g["touch"])))
             ids.append((c["id"], g["type"]))
             k += 1
     return "".join(body), ids
+
+
+def _q(hexs):
+    fr = F(float.fromhex(hexs))
+    n, d = fr.numerator, fr.denominator
+    return "((-%d)#%d)" % (-n, d) if n < 0 else "(%d#%d)" % (n, d)
+
+
+def _qf(x):
+    fr = F(x)
+    n, d = fr.numerator, fr.denominator
+    return "((-%d)#%d)" % (-n, d) if n < 0 else "(%d#%d)" % (n, d)
+
+
+def run_in_coq(ctx, cases, results):
+    """cases run INSIDE Coq: the rational instance of the integration model (C09_LoadsQ, sound w.r.t.
+    the real-number model by load_vectorQ_sound) evaluated on the implementation's own w|J|, N and
+    f(x_p) must reproduce Bc_vector_Neumann within float round-off (1e-12 of the scale)."""
+    body = ["From Coq Require Import List QArith ZArith.\nFrom EFModel Require Import C09_LoadsQ.\nImport ListNotations.\nOpen Scope Q_scope.\n"]
+    ids = []
+    for c in cases:
+        r = results.get(c["id"])
+        if not c.get("expose") or r is None or "error" in r or not r.get("exposed"):
+            continue
+        kdim, thick = DISPATCH[(c["load"], r["dim"])]
+        t = F(c["thickness"]) if thick else F(1)
+        unk = r["all_unknowns"]
+        used = sorted(set(n for g in r["exposed"] for row in g["connect"] for n in row))
+        for ui, u in enumerate(c["unknowns"]):
+            es = []
+            for g in r["exposed"]:
+                for e, row in enumerate(g["connect"]):
+                    pts = "; ".join("mk_gptQ %s %s [%s]" % (_q(g["wJ"][e][p]), _q(g["f"][ui][e][p]), "; ".join(_q(x) for x in g["N"][p]))
+                                    for p in range(len(g["wJ"][e])))
+                    es.append("mk_lelemQ [%s] [%s]" % ("; ".join("%d%%nat" % n for n in row), pts))
+            col = [r["F"][n][unk.index(u)] for n in used]
+            scale = max([abs(x) for x in col] + [1e-300])
+            k = len(ids)
+            body.append("Eval vm_compute in (%d%%Z, closeQ %s (map (Qmult %s) (load_vectorQ [%s] [%s])) [%s]).\n"
+                        % (6000000 + k, _qf(F(scale) * F(1, 10 ** 12)), _qf(t), ";\n ".join(es), "; ".join("%d%%nat" % n for n in used),
+                           "; ".join(_qf(x) for x in col)))
+            ids.append((c["id"], u))
+    if not ids:
+        return
+    rc, o = ctx.coq_eval("incoq_cases.v", "".join(body), timeout=900)
+    import re
+    got = {int(m.group(1)) - 6000000: m.group(2) for m in re.finditer(r"=\s*\((6\d{6})%Z,\s*(true|false)\)", o.replace("\n", " "))}
+    bad = [ids[k] for k in range(len(ids)) if got.get(k) != "true"]
+    ctx.cov["cases_run_inside_coq"] = len(ids)
+    ctx.obligation("corr:integration-model-in-coq", rc == 0 and not bad, "%d (case, unknown) load vectors recomputed by the rational model on the implementation's quadrature data; mismatches %s" % (len(ids), bad[:3]), n=max(len(ids), 1))
+    if rc != 0 or bad:
+        c = next((c for c in cases if bad and c["id"] == bad[0][0]), None)
+        ctx.violation("correspondence:integration-model", "Bc_vector_Neumann differs from the Gallina integration model evaluated on the implementation's own weights, shape values and density values (%s)" % (bad[:3] or o[-300:]),
+                      {"case": c, "log": o[-1500:]}, found_input=False)
 
 
 def run(ctx):
@@ -447,12 +553,33 @@ def run(ctx):
         ctx.violation("static-lib-build", "coq/lib or coq/model does not build", {"log": log[-3000:]}, found_input=False)
         return
     files = ctx.copy_props("C09/C09_theorems.v")
+    # Hermite tables regenerated from ctx.repo (fail-closed translator shared with C06)
+    try:
+        from translator import elems as T_elems, hermite as T_herm
+        from translator.pyexpr import TranslateError
+        H = T_herm.read_hermite(ctx.repo, T_elems.read_elems(ctx.repo))
+        open(os.path.join(ctx.build, "Gen_Hermite.v"), "w").write(T_herm.emit_coq(H))
+        ctx.obligation("translate:hermite", True, "%d Hermite families" % len(H))
+        files = files + ["Gen_Hermite.v"] + ctx.copy_props("C09/C09_hermite.v")
+    except Exception as ex:    # TranslateError, SyntaxError, OSError
+        ctx.obligation("translate:hermite", False, str(ex))
+        ctx.violation("translate:hermite", "translator rejected EasyFEA/FEM/Elems/_beam.py: %s" % ex, {"construct": str(ex)}, found_input=False)
+        return
     res = ctx.coq(files, timeout=600)
+    ctx.log("static theorems compiled")
+    import re as _re
+    mfam = _re.findall(r'\("(EULER_BERNOULLI\d)",\s*(true|false)\)', res.log)
+    ctx.cov["hermite_load_identities_exact"] = {k: v == "true" for k, v in mfam}
     if not res.ok:
         ctx.violation("coq:C09_theorems", "the property theorems no longer compile", {"log": res.log[-3000:]}, found_input=False)
         return
 
     cases = gen_cases(ctx)
+    # a few plain cases are also run inside Coq on the implementation's quadrature data
+    cand = [c for c in cases if c["load"] in ("line", "surf", "volume") and c.get("vkind") in ("const", "poly") and c["simu"] != "Beam"
+            and not c.get("solve_thermal_patch")]
+    for c in ctx.rng.sample(cand, min(len(cand), 4 if ctx.tier == "quick" else 30)):
+        c["expose"] = True
     seqs = gen_sequences(ctx, len(cases))
     rc, out, err = ctx.impl_python(CORR, input=json.dumps({"cases": cases + seqs}), timeout=1500)
     if rc != 0 or "@@C09JSON@@" not in out:
@@ -461,12 +588,18 @@ def run(ctx):
                       {"stderr": err[-3000:]}, found_input=False)
         return
     results = {r["id"]: r for r in json.loads(out.split("@@C09JSON@@")[1])["cases"]}
+    ctx.log("implementation runs done")
     ctx.obligation("corr:impl-run", True, "%d load cases, %d load sequences" % (len(cases), len(seqs)))
     judge_sequences(ctx, seqs, results)
+    ctx.log("sequences judged")
+    run_in_coq(ctx, cases, results)
+    ctx.log("in-Coq cases done")
 
     # ---- selection algebra: Gallina model vs Get_Elements_Nodes ----
-    body, ids = coq_select_cases(cases, results)
+    import random as _random
+    body, ids = coq_select_cases(cases, results, budget=(0.3 if ctx.tier == "quick" else None), rng=_random.Random(ctx.seed + 9))
     rc, o = ctx.coq_eval("select_cases.v", body, timeout=900)
+    ctx.log("selection model evaluated")
     import re
     got = {int(m.group(1)) - 5000000: m.group(2) for m in re.finditer(r"=\s*\((5\d{6})%Z,\s*(true|false)\)", o.replace("\n", " "))}
     badsel = [ids[k] for k in range(len(ids)) if got.get(k) != "true"]
